@@ -335,3 +335,296 @@ def lex_raw(sources, hang_s=20):
 def strip_flags(raw):
     """token string without the line-feed bit of comments (layout, not compared)"""
     return " ".join(("C:_:" + t[4:]) if t.startswith("C:") else t for t in raw.split(" ") if t)
+
+
+# ------------------------------------------------------------------ the pipeline shared by C03 / C14 / C15
+
+def py_restyle(style, text):
+    """independent re-statement of the documented comment_style rewrite (for the implementation-only oracle)"""
+    if text.startswith("#FASTLY") or style == "none" or text.startswith("/*"):
+        return text
+    if style == "sharp" and text.startswith("//"):
+        n = len(text) - len(text.lstrip("/"))
+        return "#" * n + text[n:]
+    if style == "slash" and text.startswith("#"):
+        n = len(text) - len(text.lstrip("#"))
+        return "/" * max(n, 2) + text[n:]
+    return text
+
+
+def parse_raw(raw):
+    out = []
+    for t in (raw or "").split(" "):
+        if not t:
+            continue
+        f = t.split(":")
+        out.append((f[0], f[1], bytes.fromhex(f[2]).decode("utf-8", "replace")))
+    return out
+
+
+def documented_comments(toks):
+    """comments of a token list that precede a significant token, plus those on the last token's line"""
+    last_sig = max([i for i, t in enumerate(toks) if t[0] == "T"], default=-1)
+    out = []
+    for i, t in enumerate(toks):
+        if t[0] != "C":
+            continue
+        if i < last_sig:
+            out.append(t[2])
+        elif t[1] == "0" and all(x[0] == "C" and x[1] == "0" for x in toks[last_sig + 1:i]):
+            out.append(t[2])
+    return out
+
+
+def show_toks(ts, k, width=6):
+    return " ".join("%s‹%s›" % (t[1] if t[0] == "T" else "COMMENT", t[2][:30]) for t in ts[max(0, k - width):k + width])
+
+
+def plan_pairs(ctx, items, n_random):
+    rng = ctx.rng
+    flips = single_flips()
+    pairs = []
+    twins = set(id(it["twin"]) for it in items if it.get("twin"))
+    for it in items:
+        if id(it) in twins:
+            continue          # planned with its original, under the same configurations
+        o = it["origin"]
+        confs = []
+        if o == "corpus":
+            confs.append(("stored", it.get("conf", {})))
+        if o in ("repo", "focus", "corpus", "repo+dec", "focus+dec"):
+            confs += flips
+        else:
+            confs.append(("default", {}))
+            for _ in range(n_random):
+                c = random_config(rng)
+                confs.append((cj(c), c))
+        for lab, c in confs:
+            pairs.append((it, lab, c))
+        if it.get("twin"):
+            for lab, c in confs:
+                pairs.append((it["twin"], lab, c))
+    return pairs
+
+
+class Pipeline:
+    """runs everything once; each check reports the aspects it owns"""
+
+    def __init__(self, ctx, pid, n_gen, n_random):
+        self.ctx = ctx
+        self.pid = pid
+        # the three checks share this pipeline: each gets its own stream derived from VERIF_SEED
+        ctx.rng.seed("%d/%s" % (ctx.seed, pid))
+        with V.Lock("build"):
+            self.model = V.driver("fmt")
+        self.items = gather_inputs(ctx, pid, n_gen)
+        self.pairs = plan_pairs(ctx, self.items, n_random)
+        self.res = fmt_all([(c, it["src"]) for it, _, c in self.pairs])
+        raws = lex_raw([it["src"] for it in self.items])
+        self.raw_in = {id(it): r for it, r in zip(self.items, raws)}
+        self.ok = [i for i, r in enumerate(self.res) if r["status"] == "ok"]
+        outs = lex_raw([self.res[i]["f1"] for i in self.ok])
+        self.raw_out = dict(zip(self.ok, outs))
+        # the token model does not cover sort_declaration_property (empty-line groups are layout)
+        self.modelled = [i for i in self.ok if not full(self.pairs[i][2])["sort_declaration_property"]
+                         and self.raw_in[id(self.pairs[i][0])] is not None]
+        mrep = model_norm(self.model, [(self.pairs[i][2], self.raw_in[id(self.pairs[i][0])]) for i in self.modelled])
+        self.model_out = dict(zip(self.modelled, mrep))
+        self.index = {}
+        for i, (it, lab, c) in enumerate(self.pairs):
+            self.index[(id(it), cj(c))] = i
+        self.fail = {}     # pair index -> list of (aspect, text, details)
+        self._judge()
+
+    def add(self, i, aspect, text, details=None):
+        self.fail.setdefault(i, []).append((aspect, text, details or {}))
+
+    def _judge(self):
+        self.stats = {"pairs": len(self.pairs), "parseerr": 0, "formatted": len(self.ok), "model_compared": 0,
+                      "model_agree": 0, "comments_checked": 0, "comments_total": 0, "ast_same": 0, "f2_same": 0,
+                      "det_same": 0, "skipped_sort_property_for_model": len(self.ok) - len(self.modelled)}
+        for i, r in enumerate(self.res):
+            it, lab, c = self.pairs[i]
+            stt = r["status"]
+            if stt == "parseerr":
+                self.stats["parseerr"] += 1
+                if it["origin"].endswith("+dec"):
+                    self.add(i, "decorated-unparseable", "a comment at a documented placeholder makes the program unparseable")
+                continue
+            if stt != "ok":
+                self.add(i, "crash", "formatter %s: %s" % (stt, r.get("msg", r.get("raw", ""))[:200]))
+                continue
+            if not r["det"]:
+                self.add(i, "det", "the same source formatted twice in one process gives different bytes")
+            else:
+                self.stats["det_same"] += 1
+            if not r["re"]:
+                self.add(i, "reparse", "formatted text does not parse: " + r["re_msg"][:160])
+            elif not r["ast"]:
+                self.add(i, "ast", "tree of the formatted text differs: " + sexp_diff(r["ast_exp"], r["ast_got"]))
+            else:
+                self.stats["ast_same"] += 1
+            if r.get("f2") == "same":
+                self.stats["f2_same"] += 1
+            elif r.get("f2") is not None:
+                a = r["f1"].decode("utf-8", "replace").split("\n")
+                b = r.get("f2b", b"").decode("utf-8", "replace").split("\n")
+                k = first_diff(a, b)
+                self.add(i, "f2", "formatting the output again changes it (%s) at line %d: %r -> %r" % (
+                    r["f2"], k + 1, a[k][:120] if 0 <= k < len(a) else "", b[k][:120] if 0 <= k < len(b) else ""))
+            # ---- comments, implementation alone
+            tin = parse_raw(self.raw_in[id(it)])
+            tout = parse_raw(self.raw_out.get(i))
+            conf = full(c)
+            cin = [py_restyle(conf["comment_style"], x) for x in documented_comments(tin)]
+            cout = [t[2] for t in tout if t[0] == "C"]
+            self.stats["comments_checked"] += 1
+            self.stats["comments_total"] += len(cin)
+            if conf["sort_declaration"] or conf["sort_declaration_property"]:
+                same = sorted(cin) == sorted(cout)
+            else:
+                same = cin == cout
+            if not same:
+                k = first_diff(cin, cout)
+                missing = [x for x in cin if cin.count(x) > cout.count(x)]
+                extra = [x for x in cout if cout.count(x) > cin.count(x)]
+                self.add(i, "comments", "comment sequence differs at #%d: source %r, formatted %r; lost %r duplicated/new %r" % (
+                    k, cin[k][:60] if k < len(cin) else None, cout[k][:60] if k < len(cout) else None, missing[:3], extra[:3]))
+            # ---- correspondence with the token model
+            if i in self.model_out:
+                mr = self.model_out[i]
+                self.stats["model_compared"] += 1
+                if mr is None or mr.startswith(("hang", "died", "badreq", "stackoverflow")):
+                    self.add(i, "model", "model driver failed: %s" % str(mr)[:100])
+                else:
+                    m = parse_raw(mr)
+                    ms = [(t[1], t[2]) for t in m if t[0] == "T"]
+                    os_ = [(t[1], t[2]) for t in tout if t[0] == "T"]
+                    mc = [t[2] for t in m if t[0] == "C"]
+                    good = True
+                    if ms != os_:
+                        good = False
+                        k = first_diff(ms, os_)
+                        self.add(i, "tokens_sig", "significant tokens of the formatted text differ from norm(tokens of the source) at #%d: model %s | formatter %s" % (
+                            k, " ".join("%s‹%s›" % x for x in ms[max(0, k - 4):k + 4]), " ".join("%s‹%s›" % x for x in os_[max(0, k - 4):k + 4])))
+                    if mc != cout:
+                        good = False
+                        k = first_diff(mc, cout)
+                        self.add(i, "tokens_com", "comments of the formatted text differ from those of norm(tokens of the source) at #%d: model %r | formatter %r" % (
+                            k, mc[k][:60] if k < len(mc) else None, cout[k][:60] if k < len(cout) else None))
+                    if good and [(t[0], t[2]) for t in m] != [(t[0], t[2]) for t in tout]:
+                        good = False
+                        self.add(i, "tokens_order", "comments and tokens interleave differently in the formatted text and in norm(tokens of the source)")
+                    if good:
+                        self.stats["model_agree"] += 1
+
+    # a failure on an input with line comments between the tokens of a statement is the recorded finding
+    # exactly when the same program with those comments in block style passes every oracle
+    def known_facts(self, i):
+        it, lab, c = self.pairs[i]
+        tw = it.get("twin")
+        if tw is None:
+            return None
+        j = self.index.get((id(tw), cj(c)))
+        if j is None or j in self.fail or self.res[j]["status"] != "ok":
+            return None
+        return {"construct": "line-comment-inline"}
+
+    def replay_of(self, i, shrink_aspect=None):
+        it, lab, c = self.pairs[i]
+        rep = {"label": it["label"], "config": full(c), "config_label": lab,
+               "source": it["src"].decode("utf-8", "replace")[:6000],
+               "formatted": self.res[i].get("f1", b"").decode("utf-8", "replace")[:6000]}
+        if shrink_aspect:
+            pred = {"crash": lambda r: r["status"] not in ("ok", "parseerr"),
+                    "reparse": lambda r: r["status"] == "ok" and not r.get("re"),
+                    "ast": lambda r: r["status"] == "ok" and r.get("re") and not r.get("ast"),
+                    "f2": lambda r: r["status"] == "ok" and r.get("f2") not in ("same", None),
+                    "det": lambda r: r["status"] == "ok" and not r.get("det")}.get(shrink_aspect)
+            if pred and len(it["src"]) < 60000:
+                try:
+                    small = shrink(it["src"], c, pred, budget=3000)
+                    rep["shrunk_source"] = small.decode("utf-8", "replace")
+                    rep["shrunk_result"] = fmt_all([(c, small)])[0].get("raw", "")[:3000]
+                except Exception as e:   # shrinking is a convenience
+                    rep["shrink_error"] = repr(e)
+        return rep
+
+    def report(self, aspects, max_shrink=3):
+        """turn the failures of the given aspects into violations / known findings"""
+        ctx = self.ctx
+        shrunk = 0
+        seen = {}
+        for i in sorted(self.fail):
+            for aspect, text, details in self.fail[i]:
+                if aspect not in aspects:
+                    continue
+                facts = self.known_facts(i)
+                key = aspect + ":" + text[:50]
+                first = key not in seen
+                seen[key] = seen.get(key, 0) + 1
+                it, lab, c = self.pairs[i]
+                what = "%s [%s; config %s]" % (text, it["label"], lab)
+                if facts is None and first and shrunk < max_shrink:
+                    rep = self.replay_of(i, aspect)
+                    shrunk += 1
+                else:
+                    rep = self.replay_of(i)
+                rep["aspect"] = aspect
+                ctx.violation(what, rep, facts)
+        return seen
+
+    def second_process(self, sample):
+        """C14 determinism across processes: format again in a fresh implrun process"""
+        idx = self.ok if sample >= len(self.ok) else self.ctx.rng.sample(self.ok, sample)
+        reqs = ["run %s %s" % (cj(self.pairs[i][2]), self.pairs[i][0]["src"].hex()) for i in idx]
+        reps = V.run_batch([IMPL, "fmt"], reqs, hang_s=20, max_failures=40)
+        n = 0
+        for i, r in zip(idx, reps):
+            n += 1
+            if r is None or not r.startswith("ok ") or bytes.fromhex(r[3:]) != self.res[i]["f1"]:
+                self.add(i, "det2", "a second process formats the same source differently")
+        return n
+
+    def model_idempotence(self):
+        """evidence beside the Coq theorem: norm c (norm c ts) = norm c ts evaluated on every modelled input"""
+        mrep = model_norm(self.model, [(self.pairs[i][2], self.raw_in[id(self.pairs[i][0])]) for i in self.modelled], cmd="norm2")
+        bad = [i for i, r in zip(self.modelled, mrep) if r != "same"]
+        return len(mrep), bad
+
+    def coverage(self):
+        ctx = self.ctx
+        origins = {}
+        for it in self.items:
+            origins[it["origin"]] = origins.get(it["origin"], 0) + 1
+        cov = dict(self.stats)
+        cov.update({
+            "evaluations": len(self.pairs),
+            "distinct_nontrivial": len(set((it["src"], cj(c)) for it, _, c in self.pairs)),
+            "inputs": len(self.items), "inputs_by_origin": origins,
+            "single_option_flips": [lab for lab, _ in single_flips()],
+            "decorator_slots_used": dict(sorted(getattr(ctx, "decorator").stats.items())) if hasattr(ctx, "decorator") else {},
+            "decorate_failed": getattr(ctx, "decorate_failed", 0),
+            "generator_stats": dict(sorted(getattr(ctx, "gen_stats", {}).items())),
+            "inputs_with_inline_line_comments": sum(1 for it in self.items if it.get("twin")),
+        })
+        return cov
+
+    def samples(self):
+        out = []
+        for i in (0, len(self.pairs) // 2, len(self.pairs) - 1):
+            it, lab, c = self.pairs[i]
+            out.append({"label": it["label"], "config": lab, "source": it["src"][:200].decode("utf-8", "replace"),
+                        "status": self.res[i]["status"]})
+        return out
+
+
+TRUSTED = [
+    "Coq 8.16.1 kernel (coqc); no axioms (Print Assumptions of every theorem: Closed under the global context)",
+    "extraction: ExtrOcamlBasic only; OCaml 4.13.1; ocaml/common.ml + ocaml/fmt_main.ml (token <-> constructor table, config record)",
+    "translator harness/cmd/trans/fmt_config.go (FormatConfig fields, yaml names, defaults -> Gen/FmtConfig.v)",
+    "harness/cmd/implrun fmt.go (config JSON -> config.FormatConfig, defaults as in the struct tags), fmt_ast.go (projection of the tree and the documented rewrites expected of each option)",
+    "the Go lexer is used as the observer of both the source and the formatted text (tokens, comments, the line-feed bit of a comment); it is the implementation's own lexer, checked by C01/C09",
+    "modelled not verified: Model/FmtNorm.v is a hand-written token-level statement of what the formatter emits, tied by the differential run; layout (blanks, line feeds, indentation, alignment, line breaking) is outside the model and covered only by the implementation oracles (re-parse, double format)",
+    "determinism of the Go formatter for a fixed tree (sync.Pool buffers, sort.Slice) is observed (twice in one process, once more in a second process), not proved",
+]
